@@ -16,9 +16,18 @@ RECORDS = {
                                            "jobName": "str", "previousEventIds": "list[str]"}},
 }
 
+SPECS = '''
+@opaque
+def valid_pv_values(pv_dict: dict[str, Any], mapping_config: PVEventMappingConfig) -> bool:
+    return True
+'''
+
 CONTRACTS = {
     "transform_dict_into_pv_event": {
         "params": {"pv_dict": "dict[str, Any]"},
+        # the values are of the PV format's types (strings; previousEventIds a list of strings or one non-empty string): pydantic
+        # rejects anything else with a ValidationError, which is outside this contract
+        "requires": {"pv_typed": "valid_pv_values(pv_dict, mapping_config)"},
         # "raises ValueError iff a mandatory renamed key is missing"
         "raises": {"ValueError": "not (" + " and ".join(f"mapping_config.{f} in pv_dict" for f in _MANDATORY) + ")"},
         "ensures": {
@@ -85,3 +94,85 @@ def setup(V):
                               "model options such as whitespace stripping are NOT modelled - the bounded round-trip harness covers them)")
         return r
     V.ctor_handlers["PVEventModel"] = ctor_model
+
+
+# ----------------------------------------------------------------------------- native reading
+def native_env(nat):
+    def as_str(x):
+        return x
+
+    def as_id_list(x):
+        if x and isinstance(x, str):
+            return [x]
+        return list(x)
+    def valid_pv_values(pv_dict, cfg):
+        for f in _MANDATORY:
+            k = getattr(cfg, f)
+            if k in pv_dict and not isinstance(pv_dict[k], str):
+                return False
+        p = pv_dict.get(cfg.previousEventIds, [])
+        return (isinstance(p, str) and p != "") or (isinstance(p, list) and all(isinstance(x, str) for x in p))
+    return {"as_str": as_str, "as_id_list": as_id_list, "valid_pv_values": valid_pv_values}
+
+
+def _cfgs(nat):
+    import importlib
+    t = importlib.import_module("tel2puml.tel2puml_types")
+    std = _F
+    yield {}                                                                      # default names
+    yield {f: "x_" + f for f in std}                                              # all fresh names
+    yield {"jobName": "eventType", "eventType": "eventName"}                      # chained: a custom name is another field's standard name
+    yield {"jobId": "eventId", "eventId": "jobId"}                                # swapped
+    yield {"timestamp": "applicationName", "applicationName": "timestamp", "previousEventIds": "prev"}
+
+
+class _Case(dict):
+    pass
+
+
+def _mat(nat, d):
+    import importlib
+    t = importlib.import_module("tel2puml.tel2puml_types")
+    out = _Case()
+    out.desc = d
+    out["mapping_config"] = t.PVEventMappingConfig(**d["cfg"])
+    out["pv_dict"] = dict(d["pv_dict"])
+    return out
+
+
+def _gen(nat, rng, n):
+    import importlib
+    t = importlib.import_module("tel2puml.tel2puml_types")
+    cfgs = list(_cfgs(nat))
+    vals = ["a", "b b", " c", "d ", "", "läuft", "eventType", "jobName"]
+    for i in range(n):
+        cfgd = cfgs[i % len(cfgs)]
+        cfg = t.PVEventMappingConfig(**cfgd)
+        d = {getattr(cfg, f): f"{f}:{rng.choice(vals)}" for f in _MANDATORY}
+        r = rng.random()
+        if r < 0.4:
+            d[cfg.previousEventIds] = [rng.choice(vals) for _ in range(rng.randrange(0, 3))]
+        elif r < 0.6:
+            d[cfg.previousEventIds] = rng.choice(["p1", ""])
+        if rng.random() < 0.15:
+            d.pop(getattr(cfg, rng.choice(_MANDATORY)))
+        if rng.random() < 0.3:
+            d["unrelated"] = "zzz"
+        yield _mat(nat, {"cfg": cfgd, "pv_dict": d})
+
+
+GEN = {"transform_dict_into_pv_event": _gen}
+
+
+class _Enc(dict):
+    def __missing__(self, k):
+        return lambda args: getattr(args, "desc", None)
+
+
+class _Dec(dict):
+    def __missing__(self, k):
+        return lambda nat, e: _mat(nat, e)
+
+
+ENCODE = _Enc()
+DECODE = _Dec()
